@@ -4,6 +4,7 @@ import (
 	"fmt"
 	"go/constant"
 	"go/token"
+	"go/types"
 	"math"
 	"sort"
 	"strings"
@@ -1312,6 +1313,270 @@ func checkAbsorb(p *core.Program, r *core.Report, ctx *circuitCtx, g *gadgetInfo
 		probs = append(probs, "no XOR of the window into the state in the lane loops")
 	}
 	r.Check(len(probs) == 0, "O4.5", name+": lanes are XORed into the state", p.Pos(ro.window.Pos()), fmt.Sprintf("%d lane-wise XOR combiner(s) in the lane loops", nXor), strings.Join(probs, "; "))
+
+	// (v) shortcuts: between the window and the combiner a lane may be skipped only because the window is all-zero, and
+	// stored unchanged only because the state lane is all-zero; any other condition (a position, a block number) makes
+	// the absorbed value depend on something other than P's bits
+	if xl == nil || yl == nil {
+		return
+	}
+	probs = nil
+	nShort := 0
+	var winCopy ssa.Value
+	for _, in := range wb.Instrs {
+		if c, ok := in.(*ssa.Call); ok {
+			if bi, isB := c.Call.Value.(*ssa.Builtin); isB && bi.Name() == "copy" && stripFullSlice(c.Call.Args[1]) == ssa.Value(ro.window) {
+				winCopy = stripFullSlice(c.Call.Args[0])
+			}
+			if f := c.Call.StaticCallee(); f != nil && isStdFunc(f, "slices", "Clone") && len(c.Call.Args) == 1 && stripFullSlice(c.Call.Args[0]) == ssa.Value(ro.window) {
+				winCopy = c
+			}
+		}
+	}
+	isWin := func(v ssa.Value) bool {
+		v = stripFullSlice(v)
+		return v == ssa.Value(ro.window) || (winCopy != nil && v == winCopy)
+	}
+	for _, b := range g.Fn.Blocks {
+		if !(xl.Blocks[b] && yl.Blocks[b]) || !(wb == b || wb.Dominates(b)) || len(b.Instrs) == 0 {
+			continue
+		}
+		iff, ok := b.Instrs[len(b.Instrs)-1].(*ssa.If)
+		if !ok {
+			continue
+		}
+		if l := ev.InnermostLoop(b); l != xl && l != yl {
+			if l != nil && l.Header == b {
+				continue
+			}
+			probs = append(probs, "a branch inside a loop nested in the lane loops at "+p.Pos(iff.Pos()))
+			continue
+		}
+		cond, tIdx := iff.Cond, 0
+		if u, isU := cond.(*ssa.UnOp); isU && u.Op == token.NOT {
+			cond, tIdx = u.X, 1
+		}
+		call, isCall := cond.(*ssa.Call)
+		var callee *ssa.Function
+		if isCall {
+			callee = call.Common().StaticCallee()
+		}
+		if callee == nil || len(call.Common().Args) != 1 {
+			probs = append(probs, "after the window is taken, a lane is treated differently under a condition that is not an all-zero test of the window or of the state lane ("+describe(ev.TermIn(iff.Cond, b))+" at "+p.Pos(condPos(iff))+")")
+			continue
+		}
+		if why := allZeroPredicate(ctx, callee); why != "" {
+			probs = append(probs, callee.Name()+" decides how a lane is absorbed but is not an all-zero test: "+why)
+			continue
+		}
+		arg := call.Common().Args[0]
+		if isWin(arg) {
+			// the true side may skip the combiner (x ⊕ 0 = x); whatever it stores is checked below
+			nShort++
+			continue
+		}
+		ia := loadOfIndex(arg)
+		ts := b.Succs[tIdx]
+		stored := false
+		if ia != nil && len(ts.Preds) == 1 {
+			for _, in := range ts.Instrs {
+				if st, isSt := in.(*ssa.Store); isSt {
+					if sa, isIA := st.Addr.(*ssa.IndexAddr); isIA && sameIndex(ev, sa, ia) && sameLaneRow(ev, sa, ia) && isWin(st.Val) {
+						stored = true
+					}
+				}
+			}
+		}
+		if !stored {
+			probs = append(probs, "the all-zero test at "+p.Pos(condPos(iff))+" is neither on the window nor on a state lane that then receives the window (0 ⊕ w = w)")
+			continue
+		}
+		nShort++
+	}
+	// stores of a whole lane after the window: the combiner's result, or the window itself under the state-lane test above
+	for _, b := range g.Fn.Blocks {
+		if !(xl.Blocks[b] && yl.Blocks[b]) || !(wb == b || wb.Dominates(b)) {
+			continue
+		}
+		for _, in := range b.Instrs {
+			st, isSt := in.(*ssa.Store)
+			if !isSt {
+				continue
+			}
+			if _, isIA := st.Addr.(*ssa.IndexAddr); !isIA {
+				continue
+			}
+			if _, isSl := st.Val.Type().Underlying().(*types.Slice); !isSl {
+				continue
+			}
+			if isWin(st.Val) {
+				guarded := false
+				if len(b.Preds) == 1 {
+					d := b.Preds[0]
+					if iff, ok := d.Instrs[len(d.Instrs)-1].(*ssa.If); ok {
+						cond, tIdx := iff.Cond, 0
+						if u, isU := cond.(*ssa.UnOp); isU && u.Op == token.NOT {
+							cond, tIdx = u.X, 1
+						}
+						if call, isCall := cond.(*ssa.Call); isCall && d.Succs[tIdx] == b && call.Common().StaticCallee() != nil && len(call.Common().Args) == 1 &&
+							allZeroPredicate(ctx, call.Common().StaticCallee()) == "" {
+							if ia := loadOfIndex(call.Common().Args[0]); ia != nil && sameIndex(ev, st.Addr.(*ssa.IndexAddr), ia) && sameLaneRow(ev, st.Addr.(*ssa.IndexAddr), ia) {
+								guarded = true
+							}
+						}
+					}
+				}
+				if !guarded {
+					probs = append(probs, "the window replaces a state lane at "+p.Pos(st.Pos())+" without that lane having been tested all-zero (the previous blocks' state would be lost)")
+				}
+				continue
+			}
+			isComb := false
+			for _, e := range g.Events {
+				if e.Ev == g.Ev && e.Term.K == tf.KGadget && e.Instr == ssa.Instruction(asInstr(st.Val)) {
+					isComb = true
+				}
+			}
+			if !isComb {
+				probs = append(probs, "a lane is overwritten at "+p.Pos(st.Pos())+" with something that is neither the XOR combiner's result nor the window")
+			}
+		}
+	}
+	r.Check(len(probs) == 0, "O4.5", name+": lane shortcuts", p.Pos(ro.window.Pos()), fmt.Sprintf("%d shortcut(s), each an all-zero test of the window (skip) or of the state lane (store the window)", nShort), strings.Join(probs, "; "))
+}
+
+func condPos(iff *ssa.If) token.Pos {
+	if iff.Cond.Pos() != token.NoPos {
+		return iff.Cond.Pos()
+	}
+	return iff.Pos()
+}
+
+func asInstr(v ssa.Value) ssa.Instruction {
+	in, _ := v.(ssa.Instruction)
+	return in
+}
+
+// stripFullSlice: x[:] and x[:len] re-slices of a make()d array denote the same elements.
+func stripFullSlice(v ssa.Value) ssa.Value {
+	for {
+		sl, ok := v.(*ssa.Slice)
+		if !ok || sl.Low != nil || sl.Max != nil {
+			return v
+		}
+		if sl.High != nil {
+			return v // the makeslice form: the slice value itself is the canonical name
+		}
+		v = sl.X
+	}
+}
+
+// sameLaneRow: a = &(*(&S[i]))[j] and b likewise agree on the outer index and the container.
+func sameLaneRow(ev *tf.Eval, a, b *ssa.IndexAddr) bool {
+	la, lb := loadOfIndex(a.X), loadOfIndex(b.X)
+	if la == nil || lb == nil {
+		return a.X == b.X
+	}
+	return la.X == lb.X && sameIndex(ev, la, lb)
+}
+
+// allZeroPredicate: fn(s []T) bool returns true exactly when every element of s equals the constant 0: one loop over
+// 0..len(s), left early only through "s[i] != 0 → return false", and "return true" only after the loop.
+func allZeroPredicate(ctx *circuitCtx, fn *ssa.Function) string {
+	if fn == nil || len(fn.Blocks) == 0 || len(fn.Params) != 1 || fn.Signature.Results().Len() != 1 {
+		return "not a one-argument predicate with a body"
+	}
+	if _, ok := fn.Params[0].Type().Underlying().(*types.Slice); !ok {
+		return "its argument is not a slice"
+	}
+	ev := ctx.eng.NewEval(fn)
+	loops := ev.Loops()
+	if len(loops) == 0 {
+		if why := notContainsNonZero(fn); why == "" {
+			return ""
+		}
+	}
+	if len(loops) != 1 {
+		return fmt.Sprintf("%d loops", len(loops))
+	}
+	l := loops[0]
+	ev.EnsureIV(l)
+	// the early exits are examined below, so the range is taken from the induction variable alone
+	okRange := false
+	if l.IV != nil && l.HasCond && l.Step == 1 && l.TestOff == 0 && l.CondOp == token.LSS && l.Bound != nil && l.Bound.K == tf.KLen && l.Bound.Args[0].K == tf.KParam {
+		if f, isC := tf.IntConst(l.Init); isC && f == 0 {
+			okRange = true
+		}
+	}
+	if !okRange {
+		return "its loop does not run over every element of the argument"
+	}
+	for _, b := range fn.Blocks {
+		if len(b.Instrs) == 0 {
+			continue
+		}
+		last := b.Instrs[len(b.Instrs)-1]
+		if ret, ok := last.(*ssa.Return); ok {
+			c, isC := ret.Results[0].(*ssa.Const)
+			if !isC || c.Value == nil {
+				return "returns a computed value"
+			}
+			if constant.BoolVal(c.Value) {
+				if l.Blocks[b] || !(l.Header == b || l.Header.Dominates(b)) {
+					return "returns true before all elements were seen"
+				}
+				continue
+			}
+			// return false: only as the non-zero side of an element test inside the loop
+			if len(b.Preds) != 1 || !l.Blocks[b.Preds[0]] {
+				return "returns false outside the element test"
+			}
+			d := b.Preds[0]
+			iff, isIf := d.Instrs[len(d.Instrs)-1].(*ssa.If)
+			if !isIf {
+				return "returns false outside the element test"
+			}
+			bo, isBo := iff.Cond.(*ssa.BinOp)
+			if !isBo || !((bo.Op == token.NEQ && d.Succs[0] == b) || (bo.Op == token.EQL && d.Succs[1] == b)) {
+				return "returns false on something other than element != 0"
+			}
+			x, y := bo.X, bo.Y
+			if !isZeroConst(y) {
+				x, y = y, x
+			}
+			ia := loadOfIndex(x)
+			if !isZeroConst(y) || ia == nil || ia.X != ssa.Value(fn.Params[0]) {
+				return "the element test does not compare an element of the argument with 0"
+			}
+			it := ev.TermIn(ia.Index, d)
+			if it.K != tf.KIndVar || it.Loop != l {
+				return "the element test does not index with the loop variable"
+			}
+			continue
+		}
+		if l.Blocks[b] && b != l.Header {
+			for _, s := range b.Succs {
+				if !l.Blocks[s] {
+					if _, isRet := s.Instrs[len(s.Instrs)-1].(*ssa.Return); !isRet {
+						return "the loop is left early"
+					}
+				}
+			}
+		}
+	}
+	return ""
+}
+
+func isZeroConst(v ssa.Value) bool {
+	if mi, ok := v.(*ssa.MakeInterface); ok {
+		v = mi.X
+	}
+	c, ok := v.(*ssa.Const)
+	if !ok || c.Value == nil || c.Value.Kind() != constant.Int {
+		return false
+	}
+	n, exact := constant.Int64Val(c.Value)
+	return exact && n == 0
 }
 
 // laneWiseXor: the gadget returns c with c[i] = api.Xor(A[i], B[i]) over all positions of its first operand.
@@ -1407,4 +1672,63 @@ func negCmpTok(op token.Token) token.Token {
 		return token.EQL
 	}
 	return op
+}
+
+func isStdFunc(f *ssa.Function, pkg, name string) bool {
+	if o := f.Origin(); o != nil {
+		f = o
+	}
+	return f.Pkg != nil && f.Pkg.Pkg.Path() == pkg && f.Name() == name
+}
+
+// notContainsNonZero: the body is `return !slices.ContainsFunc(s, func(e) bool { return e != 0 })`.
+func notContainsNonZero(fn *ssa.Function) string {
+	var ret *ssa.Return
+	for _, b := range fn.Blocks {
+		for _, in := range b.Instrs {
+			if r, ok := in.(*ssa.Return); ok {
+				if ret != nil {
+					return "several returns"
+				}
+				ret = r
+			}
+		}
+	}
+	if ret == nil || len(ret.Results) != 1 {
+		return "no single result"
+	}
+	u, ok := ret.Results[0].(*ssa.UnOp)
+	if !ok || u.Op != token.NOT {
+		return "not a negated search"
+	}
+	c, ok := u.X.(*ssa.Call)
+	if !ok || c.Call.StaticCallee() == nil || !isStdFunc(c.Call.StaticCallee(), "slices", "ContainsFunc") || len(c.Call.Args) != 2 || c.Call.Args[0] != ssa.Value(fn.Params[0]) {
+		return "not a search of the whole argument"
+	}
+	var pred *ssa.Function
+	switch a := c.Call.Args[1].(type) {
+	case *ssa.Function:
+		pred = a
+	case *ssa.MakeClosure:
+		pred, _ = a.Fn.(*ssa.Function)
+	}
+	if pred == nil || len(pred.Blocks) != 1 || len(pred.Params) != 1 {
+		return "the searched-for condition is not a simple function"
+	}
+	pr, ok := pred.Blocks[0].Instrs[len(pred.Blocks[0].Instrs)-1].(*ssa.Return)
+	if !ok || len(pr.Results) != 1 {
+		return "the searched-for condition is not a simple function"
+	}
+	bo, ok := pr.Results[0].(*ssa.BinOp)
+	if !ok || bo.Op != token.NEQ {
+		return "the searched-for condition is not element != 0"
+	}
+	x, y := bo.X, bo.Y
+	if !isZeroConst(y) {
+		x, y = y, x
+	}
+	if !isZeroConst(y) || x != ssa.Value(pred.Params[0]) {
+		return "the searched-for condition is not element != 0"
+	}
+	return ""
 }
